@@ -13,6 +13,8 @@ import pulsarbat as pb
 from .. import exact, gen, probes, monitors, dsp, refdft
 from .C03 import value_tol
 
+from ..replay import wl_R
+
 RULE = ("signals (real/complex, all classes, sample shapes, len in {1,2,16,17,1000,1024,20011,32768(thorough: 65536)}, start None/Time, "
         "NumPy/Dask) x n in {0,1,len,random} x t in {0, len-n, integers, k+1/2, k+eps, k+1-eps, deep-in-signal small fractions} in the "
         "three forms (sample count, duration Quantity, absolute Time) plus out-of-range / invalid requests. Every snippet call is "
@@ -61,6 +63,8 @@ class SnippetMonitor:
         z = args[0]
         t = args[1] if len(args) > 1 else kwargs.get("t")
         n = args[2] if len(args) > 2 else kwargs.get("n")
+        if np.ndim(t if not isinstance(t, Time) else 0) > 0 or (isinstance(t, Time) and not t.isscalar) or isinstance(t, (str, bytes, type(None))):
+            return          # non-scalar / non-numeric t: outside the property's domain
         ctx.count("snippet_events")
         form = "time" if isinstance(t, Time) else "quantity" if isinstance(t, u.Quantity) else "samples"
         feats = {"form": form, "cls": m["cls"].__name__, "dask": m["dask"]}
@@ -285,9 +289,14 @@ def wl_refusals(ctx, idx, rng):
     ctx.bucket("refusal", kind, form, start is None)
 
 
+def install_universal(ctx):
+    SnippetMonitor(ctx).install()
+    return probes.detach_all
+
+
 def workloads(ctx):
     q = ctx.tier == "quick"
-    return [("snippet", 4608 if q else 43200, wl_snippet), ("refusals", 1440 if q else 9600, wl_refusals)]
+    return [("R", 1, wl_R), ("snippet", 4608 if q else 43200, wl_snippet), ("refusals", 1440 if q else 9600, wl_refusals)]
 
 
 def setup(ctx):
